@@ -144,6 +144,8 @@ var table = []Variant{
 	{Name: "C13/floor-plus-remainder", Prop: "C13", Breaks: true, Expect: "C13.R", Edits: []Edit{{"block/segmenter.go", "	floorLowerBound := s.initialBlock - s.initialBlock%s.interval", "	floorLowerBound := s.initialBlock + s.initialBlock%s.interval"}}, Why: "malformed rounding"},
 	{Name: "C13/preserve-temp", Prop: "C13", Breaks: false, Edits: []Edit{{"block/segmenter.go", "	initSegment := s.initialBlock / s.interval\n	return int(initSegment)", "	return int(s.initialBlock / s.interval)"}}, Why: "temporary removed"},
 
+	{Name: "C13/preserve-blocknum-guard", Prop: "C13", Breaks: false, Edits: []Edit{{"block/segmenter.go",
+		"	if idx > s.LastIndex() {\n		return nil\n	}\n	baseBlock := uint64(idx) * s.interval\n", "	baseBlock := uint64(idx) * s.interval\n	if s.exclusiveEndBlock != 0 && s.exclusiveEndBlock <= baseBlock {\n		return nil\n	}\n"}}, Why: "same guard on block numbers: no segment starts at or after the exclusive end"},
 	// ---------------------------------------------------------------- C14
 	{Name: "C14/no-filter-dependency", Prop: "C14", Breaks: true, Expect: "C14.R1", Edits: []Edit{{"pipeline/exec/graph.go", "				if !seen[mod.BlockFilter.Module] {\n					continue modLoop\n				}", "				if false {\n					continue modLoop\n				}"}}, Why: "filtered module placed before its index"},
 	{Name: "C14/seen-inside-layer", Prop: "C14", Breaks: true, Expect: "C14.R2", Edits: []Edit{{"pipeline/exec/graph.go", "			layer = append(layer, mod)\n", "			layer = append(layer, mod)\n			seen[mod.Name] = true\n"}}, Why: "two modules of one layer may depend on each other"},
@@ -170,6 +172,13 @@ var table = []Variant{
 	{Name: "C17/kind-not-validated", Prop: "C17", Breaks: true, Expect: "C17.R1", Edits: []Edit{{"manifest/reader.go", "		if mod.Kind == nil {\n			return fmt.Errorf(\"module %q: missing kind\", mod.Name)\n		}\n", ""}}, Why: "the historical defect D8 (kind)"},
 	{Name: "C17/validation-error-swallowed", Prop: "C17", Breaks: true, Expect: "C17.R2", Edits: []Edit{{"service/validate.go", "	if err := manifest.ValidateModules(modules); err != nil {\n		return fmt.Errorf(\"modules validation failed: %w\", err)\n	}\n", "	if err := manifest.ValidateModules(modules); err != nil && len(modules.Modules) > 1000 {\n		return fmt.Errorf(\"modules validation failed: %w\", err)\n	}\n"}}, Why: "invalid modules reach graph construction"},
 	{Name: "C17/cycles-accepted", Prop: "C17", Breaks: true, Expect: "C17.R3", Edits: []Edit{{"manifest/graph.go", "	if !graph.Acyclic(g) {\n		return nil, fmt.Errorf(\"modules graph has a cycle\")\n	}\n", ""}}, Why: "staging and hashing may not terminate"},
+	{Name: "C17/preserve-self-references-refused-by-validation", Prop: "C17", Breaks: false, Edits: []Edit{
+		{"manifest/graph.go", "			if j, found := g.moduleIndex[moduleName]; found {\n				g.AddCost(i, j, 1)\n			}\n", "			if j, found := g.moduleIndex[moduleName]; found && j != i {\n				g.AddCost(i, j, 1)\n			}\n"},
+		{"manifest/graph.go", "			if j, found := g.moduleIndex[moduleName]; found {\n				g.AddCost(i, j, 1)\n				g.inputOrderIndex", "			if j, found := g.moduleIndex[moduleName]; found && j != i {\n				g.AddCost(i, j, 1)\n				g.inputOrderIndex"},
+		{"manifest/reader.go", "			seekMod := i.Map.ModuleName\n", "			seekMod := i.Map.ModuleName\n			if seekMod == mod.Name {\n				return fmt.Errorf(\"module %q: input %d: a module cannot use its own output as input\", mod.Name, idx)\n			}\n"},
+		{"manifest/reader.go", "			seekMod := i.Store.ModuleName\n", "			seekMod := i.Store.ModuleName\n			if seekMod == mod.Name {\n				return fmt.Errorf(\"module %q: input %d: a module cannot use its own output as input\", mod.Name, idx)\n			}\n"},
+		{"manifest/reader.go", "		seekModName := blockFilter.GetModule()\n", "		seekModName := blockFilter.GetModule()\n		if seekModName == mod.Name {\n			return fmt.Errorf(\"block filter module %q cannot be the module itself\", seekModName)\n		}\n"},
+	}, Why: "another sound design: self references are refused by validation for every reference kind, so the graph may leave self loops out"},
 	{Name: "C17/new-panic", Prop: "C17", Breaks: true, Expect: "C17.R1", Edits: []Edit{{"pipeline/exec/graph.go", "	g.outputModule = computeOutputModule(g.usedModules, outputModuleName)", "	g.outputModule = computeOutputModule(g.usedModules, outputModuleName)\n	if g.outputModule.Output == nil {\n		panic(\"no output\")\n	}"}}, Why: "request-reachable panic"},
 
 	// ---------------------------------------------------------------- C18
